@@ -523,6 +523,13 @@ fn judge(case: &ServerCase, w: &World, which: Which, labels: &mut Labels, nontri
 }
 
 fn check_server(case: &ServerCase, which: Which) -> Outcome {
+    if which == Which::C15 && case.key_seed % 64 == 1 {
+        // the access policy end to end: loopback client (IPv4 or IPv6) against the daemon's server task
+        return match udp_policy(case.key_seed / 64) {
+            Err(f) => Outcome { failure: Some(f), labels: vec!["e2e-policy"], nontrivial: true },
+            Ok(l) => Outcome::pass(l != "e2e-policy-unavailable").label("e2e-policy").label(l),
+        };
+    }
     if which == Which::C16 && case.key_seed % 8 == 0 {
         // (b) end to end through the daemon's server task over loopback UDP
         match udp_exchange(case) {
@@ -642,6 +649,131 @@ server_prop!(C22, "C22", Which::C22, 400_000, 9_700_000, 4,
     "raw byte strings 0..1024, reference-built NTS layouts with valid cookies and arbitrary trailing data, authenticated requests with 0..=24 undersized unique-identifier fields (answer authenticator squeezed against the end of the buffer), plain requests with undersized fields and legacy MACs of every accepted length, bit-flipped/truncated/extended valid requests, random configurations, synchronisation states (variance terms 0/huge/slightly negative) and key histories; oracle = Server::handle returns (no panic); non-trivial = every handled datagram");
 
 // ---------------------------------------------------------------------------
+// C15 (b): the access policy end to end: what matters here is the address the daemon looks up
+
+/// One client on the IPv4 or IPv6 loopback address, deny/allow lists drawn from subnets around the loopback
+/// addresses (also their IPv4-compatible / mapped look-alikes), both actions. A plain conformant request is
+/// sent (up to three times); the reference subnet arithmetic on the client's real address decides what it must get.
+pub fn udp_policy(sel: u64) -> Result<&'static str, Failure> {
+    use ntp_proto::{FilterAction, FilterList, KeySetProvider, Server};
+    use ntpd::verif_hook::{DaemonServerConfig, ServerStats, ServerTask};
+    use std::net::{IpAddr, Ipv4Addr, Ipv6Addr, SocketAddr};
+    use std::sync::{Arc, RwLock};
+    use std::time::Duration;
+    const POOL: [&str; 12] = [
+        "127.0.0.1/32", "127.0.0.0/8", "::1/128", "::/127", "0.0.0.1/32", "0.0.0.0/8", "::ffff:127.0.0.1/128", "10.0.0.0/8", "::/0", "0.0.0.0/0",
+        "::/96", "127.0.0.2/31",
+    ];
+    let v6 = sel & 1 != 0;
+    let pick = |k: u64| -> Vec<String> {
+        let mut v = Vec::new();
+        for j in 0..(k % 3) {
+            v.push(POOL[((k / 3 + j * 5) % POOL.len() as u64) as usize].to_string());
+        }
+        v
+    };
+    let deny = pick(sel >> 1);
+    let mut allow = pick(sel >> 9);
+    if (sel >> 17) & 1 == 0 {
+        allow = vec!["0.0.0.0/0".into(), "::/0".into()];
+    }
+    let deny_is_deny = (sel >> 18) & 1 != 0;
+    let allow_is_deny = (sel >> 19) & 1 != 0;
+    let client_ip: IpAddr = if v6 { IpAddr::V6(Ipv6Addr::LOCALHOST) } else { IpAddr::V4(Ipv4Addr::LOCALHOST) };
+    // a port that is free right now (asked from the kernel, released again for the server task)
+    let Some(port) = std::net::UdpSocket::bind(SocketAddr::new(client_ip, 0)).ok().and_then(|s| s.local_addr().ok()).map(|a| a.port()) else {
+        return Ok("e2e-policy-unavailable");
+    };
+    let listen = SocketAddr::new(client_ip, port);
+    let cfg = CfgSpec { deny: deny.clone(), deny_is_deny, allow: allow.clone(), allow_is_deny, require_nts: None, accepted: 7 };
+    // expectation from the statement and reference subnet arithmetic on the client's real address
+    let denied = ref_member(&parse_subnets(&deny), client_ip);
+    let allowed = ref_member(&parse_subnets(&allow), client_ip);
+    #[derive(PartialEq, Debug)]
+    enum Want {
+        Time,
+        DenyKiss,
+        Nothing,
+    }
+    let want = if denied {
+        if deny_is_deny { Want::DenyKiss } else { Want::Nothing }
+    } else if !allowed {
+        if allow_is_deny { Want::DenyKiss } else { Want::Nothing }
+    } else {
+        Want::Time
+    };
+    crate::rt::run_real(async move {
+        let text = server_table_toml(&cfg, &listen.to_string(), 0, 0).expect("pool subnets parse");
+        let dcfg: DaemonServerConfig = toml::from_str(&text).map_err(|e| Failure { signature: "harness/server-table-rejected".into(), what: format!("{e}: {text}") })?;
+        let provider = KeySetProvider::dangerous_new_deterministic(1);
+        let (_tx, rx) = tokio::sync::watch::channel(provider.get());
+        let info = Arc::new(RwLock::new(make_info(&StateSpec { stratum: 2, leap: 0, refid: 7, root_delay: 0, var_base: 0.0, var_linear: 0.0, var_quadratic: 0.0, var_cubic: 0.0, var_base_time: 0, precision_exp: -20, bloom_ids: 0 }, 1)));
+        let now = Arc::new(std::sync::atomic::AtomicU64::new(0x1234_5678_0000_0000));
+        let server = Server::new_internal(dcfg.clone().into(), FixedClock(now), info, provider.get());
+        let handle = ServerTask::spawn(server, dcfg, ServerStats::default(), rx, Duration::from_millis(5));
+        let res = async {
+            let bind: SocketAddr = SocketAddr::new(client_ip, 0);
+            let Ok(sock) = tokio::net::UdpSocket::bind(bind).await else { return Ok("e2e-policy-unavailable") };
+            if sock.connect(listen).await.is_err() {
+                return Ok("e2e-policy-unavailable");
+            }
+            let mut probe = [0u8; 48];
+            probe[0] = 0x23;
+            let mut buf = [0u8; 2048];
+            let mut got_time = false;
+            let mut got_deny = false;
+            let mut got_other = false;
+            // the server task needs a moment to open its socket; a request that must be served is retried
+            for attempt in 0..40u64 {
+                probe[40..48].copy_from_slice(&(0x504f_4c49_4359_0000u64 | attempt).to_be_bytes());
+                let _ = sock.send(&probe).await;
+                let wait = if want == Want::Time { 50 } else { 20 };
+                if let Ok(Ok(n)) = tokio::time::timeout(Duration::from_millis(wait), sock.recv(&mut buf)).await {
+                    if n >= 48 && buf[24..30] == probe[40..46] {
+                        if buf[1] != 0 {
+                            got_time = true;
+                        } else if &buf[12..16] == b"DENY" {
+                            got_deny = true;
+                        } else {
+                            got_other = true;
+                        }
+                        break;
+                    }
+                }
+                if want != Want::Time && attempt >= 5 {
+                    break;
+                }
+            }
+            let ctx = || format!("client {client_ip}, deny list {deny:?} (action deny: {deny_is_deny}), allow list {allow:?} (action deny: {allow_is_deny})");
+            match want {
+                Want::Time => {
+                    if !got_time {
+                        return Err(Failure { signature: "e2e-allowed-client-not-served".into(), what: format!("{}: no time answer (deny kiss: {got_deny})", ctx()) });
+                    }
+                    Ok("e2e-policy-served")
+                }
+                Want::DenyKiss => {
+                    if got_time || got_other {
+                        return Err(Failure { signature: "e2e-denied-client-served".into(), what: format!("{}: got a time answer", ctx()) });
+                    }
+                    Ok(if got_deny { "e2e-policy-deny-kiss" } else { "e2e-policy-deny-unanswered" })
+                }
+                Want::Nothing => {
+                    if got_time || got_deny || got_other {
+                        return Err(Failure { signature: "e2e-ignored-client-answered".into(), what: format!("{}: got an answer (time: {got_time}, deny: {got_deny})", ctx()) });
+                    }
+                    Ok("e2e-policy-ignored")
+                }
+            }
+        }
+        .await;
+        handle.abort();
+        let _ = handle.await;
+        res
+    })
+}
+
+// ---------------------------------------------------------------------------
 // C16 (b): end to end through the daemon's ServerTask on a loopback UDP socket
 
 /// identifier a reply echoes: v3/v4 transmit timestamp -> origin field, v5 client cookie
@@ -661,7 +793,8 @@ pub fn udp_exchange(case: &ServerCase) -> Result<(usize, usize, usize), Failure>
     use ntpd::verif_hook::{DaemonServerConfig, ServerStats, ServerTask};
     use std::sync::{Arc, RwLock};
     use std::time::Duration;
-    let port = 20000 + (std::process::id() % 20000) as u16;
+    // a port that is free right now (asked from the kernel, released again for the server task)
+    let port = std::net::UdpSocket::bind("127.0.0.1:0").ok().and_then(|s| s.local_addr().ok()).map(|a| a.port()).unwrap_or(20000 + (std::process::id() % 20000) as u16);
     let listen: std::net::SocketAddr = ([127, 0, 0, 1], port).into();
     crate::rt::run_real(async move {
         // policy for the (loopback) client: served, on a deny list, outside the allow list, or NTS required
